@@ -147,6 +147,8 @@ def shards(tier):
     step = (n + k - 1) // k
     out = [("docs", a, min(n, a + step)) for a in range(0, n, step)]
     out += [("big", m, v) for m in (bigdocs.SIZES_QUICK if tier == "quick" else bigdocs.SIZES_THOROUGH) for v in (0, 1)]
+    # ... and documents past the block counts a chunked or parallel pass would switch at (one variant; thorough has them above)
+    out += [("big", m, 0) for m in (999, 1000, 1025, 2049, 4100)] if tier == "quick" else [("big", m, 0) for m in (999, 1000, 8200, 16400)]
     return out
 
 
